@@ -108,6 +108,12 @@ def special_family():
     out.append({'name': 'pattern-anyns', 'tasks': tasks, 'configs': {
         'sub': {'medium': 'json', 'tasks': ['X', 'Y'], 'values': {}},
         'top': {'medium': 'json', 'tasks': ['All'], 'values': {}, 'uses': [{'config': 'sub', 'as': 'n1'}, {'config': 'sub', 'as': 'n2'}]}}, 'root': 'top', 'variants': {'v': []}})
+    # `~~` from a task that itself lives in a namespace: collects matching tasks of every namespace (its own, a sibling, the root)
+    tasks = {'X': T('x_a'), 'Xr': T('x_r'), 'Y': T('y'), 'All': T('all', inputs=[{'how': 'pattern', 'ref': '~~x_.*'}])}
+    out.append({'name': 'pattern-anyns-from-ns', 'tasks': tasks, 'configs': {
+        'sub': {'medium': 'json', 'tasks': ['X', 'Y'], 'values': {}},
+        'coll': {'medium': 'json', 'tasks': ['All', 'X'], 'values': {}},
+        'top': {'medium': 'json', 'tasks': ['Xr'], 'values': {}, 'uses': [{'config': 'sub', 'as': 'na'}, {'config': 'coll', 'as': 'nb'}]}}, 'root': 'top', 'variants': {'v': []}})
     # the same file mounted twice, consumer at root reads both
     for form in ('name', 'gname'):
         tasks = {'X': T('x', 'g' if form == 'gname' else None), 'Y': T('y', inputs=[bc('X')]), 'Z': T('z', inputs=[bn('n1::y'), bn('n2::g:x' if form == 'gname' else 'n2::x')])}
